@@ -5,6 +5,7 @@ HARNESSES = [
     ("specs", ["specs.cxx"], "plain"),
     ("subst", ["subst.cxx"], "plain"),
     ("make", ["make.cxx"], "plain"),
+    ("visit", ["visit.cxx"], "plain"),
     ("scopes", ["scopes.cxx"], "plain"),
     ("regions", ["regions.cxx"], "plain"),
     ("strings", ["strings.cxx"], "plain"),
